@@ -83,7 +83,14 @@ def _exit_desc(fn, path, rv=None):
                         if g and "str" in g:
                             return g["str"].rstrip("\0").replace(" ", "_")[:50]
     from .c05 import describe
-    return "ret=" + describe(rv)
+    d = describe(rv)
+    if d == "value" and rv is not None and rv[0] == "i" and len(rv[1].t) == 1:
+        # name the origin of the returned value: the result of which call is handed back
+        a = list(rv[1].t)[0].split("/")[-1]
+        df = fn.defs.get(a)
+        if df is not None and df["op"] in ("call", "invoke"):
+            d = "result-of-" + (df.get("callee") or "indirect-call")
+    return "ret=" + d
 
 
 def run(ck):
